@@ -393,6 +393,15 @@ def s6(chk: Check, proj: Project, w) -> None:
                                  f"`{short(enclosing_stmt(x))}` reuses the topmost already-copied layer BY REFERENCE (`[:{norm(up)}]` includes the layer at `{idxv}`): it is the live top layer of the parent's template render, so a later `{{% firstof .. as x %}}` / `{{% url .. as x %}}` in the parent is seen by the deferred child render and its fills")
                 else:
                     chk.undecided("S6", key, m.loc(x), f"slice `{norm(x)}` of the live layer list not understood")
+    # the forloop dict itself is copied into the copied layer (CopiedDict(...) is shallow: without this the snapshot
+    # keeps the dict that the live {% for %} goes on updating)
+    if loops:
+        fl = [st for st in ast.walk(loops[0]) if isinstance(st, ast.Assign) and isinstance(st.targets[0], ast.Subscript) and isinstance(st.targets[0].slice, ast.Constant) and st.targets[0].slice.value == "forloop"]
+        okf = any(isinstance(st.value, ast.Call) and isinstance(st.value.func, ast.Attribute) and st.value.func.attr == "copy" and isinstance(st.value.func.value, ast.Subscript)
+                  and isinstance(st.value.func.value.slice, ast.Constant) and st.value.func.value.slice.value == "forloop" and norm(st.targets[0].value) != norm(st.value.func.value.value) for st in fl)
+        chk.ob("S6", "util.context:snapshot_context:forloop-dict-copied", m.loc(fl[0]) if fl else m.loc(loops[0]), okf,
+               "the copied layer gets its own copy of the `forloop` dict" if okf else
+               "the copied layer keeps the live `forloop` dict (the layer copy is shallow): components and fills rendered after the loop has moved on all report the LAST iteration's counter / first / last")
     wl = [x for x in body_walk(f) if isinstance(x, ast.While)]
     if len(wl) != 1:
         chk.undecided("S6", "util.context:snapshot_context:chain-walk", m.loc(f), f"{len(wl)} while loops")
